@@ -452,6 +452,15 @@ func (p *Prog) calleeDesc(c ssa.CallInstruction) string {
 		return p.fnDesc(v)
 	case *ssa.MakeClosure:
 		return "closure:" + p.Name(v.Fn.(*ssa.Function))
+	case *ssa.Parameter:
+		// a function a helper received from its caller, when the running deep
+		// enumeration (or agreement of all call sites) says which
+		if f := p.resolveFuncParam(v); f != nil {
+			if f.Parent() != nil {
+				return "closure:" + p.Name(f)
+			}
+			return p.fnDesc(f)
+		}
 	}
 	return "dyn:" + typeKey(cc.Value.Type())
 }
@@ -492,6 +501,9 @@ func (p *Prog) staticLocalCallee(c ssa.CallInstruction) *ssa.Function {
 		}
 	case *ssa.MakeClosure:
 		return v.Fn.(*ssa.Function)
+	case *ssa.Parameter:
+		// a function a helper received from its caller (deep view)
+		return p.resolveFuncParam(v)
 	}
 	return nil
 }
